@@ -260,9 +260,10 @@ def coq_build(targets):
     return rc == 0, out
 
 
-def model_build():
-    """(re)build the extracted driver: needs only the model files, no proofs"""
-    rc, out = sh("./build.sh extract/Extract.vo && ./build_driver.sh", timeout=3600)
+def model_build(keep_gen=False):
+    """(re)build the extracted driver: needs only the model files, no proofs.
+    keep_gen: the translator refused the current source - build from the generated files of the last accepted source"""
+    rc, out = sh(("VERIF_KEEP_GEN=1 " if keep_gen else "") + "./build.sh extract/Extract.vo && ./build_driver.sh", timeout=3600)
     return rc == 0, out
 
 
